@@ -690,7 +690,18 @@ class PowerExpression(BinaryExpression):
         return np.power(one, two)
 
     def __str__(self) -> str:
-        return "{}{}{}".format(self.left, self.with_color(self.name), self.right)
+        left = f"{self.left}"
+        right = f"{self.right}"
+        # The exponent applies to what is written directly before it, so a negation,
+        # a product (including the compact "4x" form) or another power that is the
+        # base needs parentheses: (-x)^2, (4x)^2, (x^y)^z
+        base_types = (NegateExpression, MultiplyExpression, PowerExpression)
+        if isinstance(self.left, base_types) and not left.startswith("("):
+            left = f"({left})"
+        # x^(y^z) is not (x^y)^z
+        if isinstance(self.right, PowerExpression):
+            right = f"({right})"
+        return "{}{}{}".format(left, self.with_color(self.name), right)
 
 
 class ConstantExpression(MathExpression):
